@@ -11,7 +11,7 @@ vars == <<stage, cfg, rq, out>>
 
 E(t, s, p) == [t |-> t, s |-> s, p |-> p]
 JSON   == E("application", "json", "")
-Pool   == { E("a", "x", ""), E("t", "p", ""), E("t", "p", "; charset=utf-8"), JSON, E("a", "x", ";q=1") }
+Pool   == { E("a", "x", ""), E("t", "p", ""), E("t", "p", "; charset=utf-8"), JSON, E("a", "x", "; charset=utf-8; version=0.0.4") }
 Defaults == { JSON, E("t", "p", ""), NoFormat }
 R(t, s, q) == [t |-> t, s |-> s, q |-> q]
 Accepts == { <<>>,
@@ -20,7 +20,7 @@ Accepts == { <<>>,
              << <<R("t", "p", 0), R("*", "*", 5)>> >>, << <<R("application", "json", 10), R("a", "*", 10)>> >>,
              << <<R("z", "z", 10)>> >> }
 Methods  == {"GET", "HEAD", "POST", "DELETE"}
-Declared == { <<200>>, <<201, 200>>, <<204>>, <<204, 201>>, <<0>>, <<0, 200>>, <<404, 0>> }
+Declared == { <<200>>, <<201, 200>>, <<204>>, <<204, 201>>, <<0>>, <<0, 200>>, <<404, 0>>, <<205>>, <<206, 203>> }
 Outcomes == { [k |-> "value", code |-> 0, scripted |-> FALSE], [k |-> "nil", code |-> 0, scripted |-> FALSE],
               [k |-> "responder", code |-> 0, scripted |-> FALSE], [k |-> "error", code |-> 409, scripted |-> TRUE],
               [k |-> "libresponder", code |-> 409, scripted |-> FALSE] }
